@@ -470,16 +470,15 @@ class State(object):
     def _derived_facts(self, atoms):
         out = []
         for a in list(atoms):
-            if a[0] == 'div' and is_const(a[2]) and a[2][1] > 0:
+            if a[0] in ('div', 'mod') and is_const(a[2]) and a[2][1] > 0 and self.dom(a[1]).lo >= 0:
                 c = a[2][1]
+                d = ('div', a[1], a[2])
+                m = ('mod', a[1], a[2])
                 x = lin_of(a[1])
-                if self.dom(a[1]).lo >= 0:
-                    # c*d <= x  and  x <= c*d + c-1
-                    out.append(Lin({a: c}, 0).add(x, -1))
-                    l2 = x.add(Lin({a: c}, c - 1), -1)
-                    out.append(l2)
-            elif a[0] == 'mod' and is_const(a[2]) and a[2][1] > 0:
-                pass
+                # x == c*d + m
+                e = Lin({d: c, m: 1}, 0).add(x, -1)
+                out.append(e)
+                out.append(e.scale(-1))
         return out
 
     def prove_le(self, a, b):
